@@ -193,7 +193,7 @@ func genHash(r *rand.Rand, nprobe int) vh.Case {
 
 // ---- driver ----
 
-var kinds = []string{"idx", "hash", "map", "lru", "tiny", "lock", "tlock", "sem"}
+var kinds = []string{"idx", "hash", "map", "lru", "tiny", "lock", "tlock", "sem", "burst"}
 
 func genCase(kind string, sub int64, thorough bool) vh.Case {
 	r := rand.New(rand.NewSource(sub))
@@ -212,6 +212,15 @@ func genCase(kind string, sub int64, thorough bool) vh.Case {
 	return c
 }
 
+// one burst configuration: thousands of concurrent rounds, a handful of emitted cases
+func emitBurst(e *vh.Env, sub int64, thorough bool) {
+	for _, c := range genBurst(sub, thorough, e.Search) {
+		c.Replay = fmt.Sprintf("burst:%d", sub)
+		c.Coq = "(" + strings.ReplaceAll(c.Coq, "%Z", "") + ")%Z"
+		e.Emit(c)
+	}
+}
+
 func main() {
 	vh.Main("c17", func(e *vh.Env) {
 		thorough := e.Thorough || e.Search
@@ -219,7 +228,11 @@ func main() {
 			parts := strings.SplitN(e.Replay, ":", 2)
 			if len(parts) == 2 {
 				if sub, err := strconv.ParseInt(parts[1], 10, 64); err == nil {
-					e.Emit(genCase(parts[0], sub, thorough))
+					if parts[0] == "burst" {
+						emitBurst(e, sub, thorough)
+					} else {
+						e.Emit(genCase(parts[0], sub, thorough))
+					}
 				}
 			}
 			return
@@ -227,7 +240,7 @@ func main() {
 		// volumes per kind (quick, thorough)
 		vol := map[string][2]int{
 			"idx": {220, 1500}, "hash": {160, 1200}, "map": {70, 500}, "lru": {80, 600}, "tiny": {60, 450},
-			"lock": {40, 300}, "tlock": {40, 300}, "sem": {50, 400},
+			"lock": {40, 300}, "tlock": {40, 300}, "sem": {50, 400}, "burst": {24, 60},
 		}
 		focus := ""
 		if e.Search && e.Focus != "" {
@@ -251,9 +264,15 @@ func main() {
 		// kinds interleaved, so that the case files the driver cuts the stream into cost about the same
 		e.Rnd.Shuffle(len(plan), func(a, b int) { plan[a], plan[b] = plan[b], plan[a] })
 		for _, k := range plan {
-			e.Emit(genCase(k, e.Rnd.Int63(), thorough))
+			if k == "burst" {
+				emitBurst(e, e.Rnd.Int63(), e.Thorough)
+			} else {
+				e.Emit(genCase(k, e.Rnd.Int63(), thorough))
+			}
 			counts[k]++
 		}
+		e.Meta["burst_rounds"] = burstRounds
+		e.Meta["burst_rounds_differing_from_reference"] = burstBad
 		e.Meta["cases_per_kind"] = counts
 		e.Meta["index_shard_counts"] = idxShards
 		e.Meta["container_shard_counts"] = []int{1, 2, 3, 5, 8, 64, 73, 211}
